@@ -195,6 +195,10 @@ func (g *Gen) inputRaw(n *Node) IVal {
 		case c < 55:
 			return intV(Pick(r, []int64{0, 3, -2, 10, 1 << 53, (1 << 53) + 1, 16777217}))
 		case c < 75:
+			if n.Kind == KFloat32 && r.Fork(0xf32f).P(30) {
+				// decimals next to a float32 rounding boundary (rounded once or twice they differ), next to its overflow threshold
+				return strV(Pick(r.Fork(0xf330), []string{"1.00000017881393432617187499", "340282356779733661637539395458142568447", "1.00000005960464477539062501", "16777217.0000000000000000001", "0.100000001490116119384765625"}))
+			}
 			return strV(Pick(r, []string{"2.5", "1e3", "-0.5", "abc", "1e400", "NaN", "3.4028236e38", ".5", "1,5", "0x1p-2", "Inf"}))
 		case c < 82:
 			return IVal{Kind: "f32", F: f32(Pick(r, []float64{0.1, 2.5, 3.25}))}
